@@ -268,13 +268,28 @@ def poly_check(ax, case, rec):
     ncomp = {"field": case["ncomp"], "planestrain": 2, "axisymmetric": 2, "container": dim}[fk]
     exps = [e for e in itertools.product(range(k + 1), repeat=dim) if sum(e) <= k]
     x0 = X.mean(0)
+    # tensor-product families on box-shaped cells under one affine map: the element space holds every product of powers <= k of
+    # the grid directions (mixed terms such as xy, xz, xyz for the 8-point hexahedron); the polynomial is then given in the grid
+    # coordinates y = A^-1 (x - t) and its derivatives are pushed forward by the chain rule
+    tensor = (kind in ("quad", "quad9", "hexahedron", "hexahedron27") or kind.startswith("lagrange")) and info["affine_cells"] and case["pseed"] % 2 == 0
+    Ainv = np.linalg.inv(info["A"]) if tensor else np.eye(dim)
+    if tensor:
+        exps = list(itertools.product(range(k + 1), repeat=dim))
+        rec.label("tensor-product-polynomial")
+        x0 = info["t"] + info["A"] @ (((X - info["t"]) @ Ainv.T).mean(0))
+
+    def poly_x(c, pts):
+        """value, gradient and hessian with respect to x of the polynomial given in y = A^-1 (x - x0) (A = 1 unless tensor)"""
+        p_, g_, H_ = poly_eval(c, exps, (np.asarray(pts, float) - x0) @ Ainv.T)
+        return p_, g_ @ Ainv, np.einsum("ia,nij,jb->nab", Ainv, H_, Ainv)
+
     coefs = []
     for i in range(ncomp):
         c = rng.uniform(0.1, 1.0, len(exps)) * rng.choice([-1, 1], len(exps))
         coefs.append(c)
     rec.nontrivial = nontrivial_mesh(spec, mesh) or mesh.ncells >= 2
     rec.label(f"degree={k}")
-    vals = np.stack([poly_eval(c, exps, X - x0)[0] for c in coefs], axis=1)
+    vals = np.stack([poly_x(c, X)[0] for c in coefs], axis=1)
     vals[info["bubble"]] = 0.0
     # independent quadrature positions: x_q = sum_a X_a h_a(r_q) over the geometry nodes
     el, qd = region.element, region.quadrature
@@ -289,7 +304,7 @@ def poly_check(ax, case, rec):
     G = np.zeros((ncomp, dim, nq, nc))
     HH = np.zeros((ncomp, dim, dim, nq, nc))
     for i, c in enumerate(coefs):
-        p, g, H = poly_eval(c, exps, xq.reshape(-1, dim) - x0)
+        p, g, H = poly_x(c, xq.reshape(-1, dim))
         P[i] = p.reshape(nq, nc)
         G[i] = np.moveaxis(g.reshape(nq, nc, dim), -1, 0)
         HH[i] = np.moveaxis(np.moveaxis(H.reshape(nq, nc, dim, dim), -1, 0), -1, 0).transpose(1, 0, 2, 3)
